@@ -24,6 +24,7 @@ RULE_TEXT = (
     "wiring: stage(abstract input with symbolic operands) matches the documented product shape (slot, default, "
     "rejection, unchanged); C10.e EQUAL_NULL macro body three-valued over {NULL,x,y}^2."
     " C10.f closure: the product of stage i is a fixpoint of every stage j < i (exceptions listed with reasons)."
+    " C10.g = C01.b; C10.h self-nesting: the product of a replacing stage must not embed an unrewritten occurrence of its own pattern (verdicts for the confirmed table NESTING_MATTERS)."
 )
 TRUSTED = ["CPython ast", "sqlglot Expression.transform visits pre-order and prunes below a replaced node",
            "order obligations table (DESIGN appendix B), each with its reason"]
